@@ -1,6 +1,726 @@
-//! C29 — not implemented yet.
-use mc_core::Ctx;
+//! C29 — calendar time conversions are correct and invertible.
+//!
+//! Bounded-exhaustive enumeration *by day*:
+//!  (a) every day of a contiguous range of years starting at year 1, plus three far 400-year cycles (around
+//!      year 10^6, around 2^31 and the last one ending 4294967295-12-31), each at 8 seconds-of-day:
+//!      `from_instant` equals the proleptic Gregorian reference, `to_instant` inverts it, `new` accepts the
+//!      reference date and its `to_instant` equals the reference timestamp (so mutually consistent changes of
+//!      both directions are seen), consecutive enumerated instants map to strictly increasing date-times;
+//!  (b) `new` accepts exactly the valid civil dates on a grid of (year, month 0..=13, day 0..=32, h, m, s);
+//!  (c) out-of-range instants are errors, the two range ends convert;
+//!  (d) `add_days/hours/minutes/seconds` on one date-time per enumerated day x 21 deltas (incl. the exact
+//!      distances to both range ends and i64 extremes) agree with exact (i128) timestamp arithmetic;
+//!  (e) text: every enumerated date-time with year <= 9999 prints as the documented ISO-8601 text and parses
+//!      back to itself; all single/double-point mutations of valid texts and all per-field contents over a
+//!      small alphabet (incl. non-ASCII, NUL): `from_str` never panics, strict-form texts are accepted iff they
+//!      are a valid civil date-time and then yield exactly the written fields.
+//!
+//! Reference calendar: the most boring one possible — a day-by-day walk with the leap rule and a month-length
+//! table — cross-checked on every enumerated day against the closed-form days-from-civil / civil-from-days
+//! (disagreement of the two references is a machinery error). The closed form is then used for the
+//! arithmetic targets, which are not on the walk.
+use crate::c27::Collector;
+use mc_core::{par_for, Ctx, Level, Local};
+use radix_common::time::{Instant, UtcDateTime};
+use serde_json::{json, Map, Value};
+use std::str::FromStr;
 
-pub fn run(_ctx: Ctx) -> ! {
-    mc_core::machinery_error("C29: not implemented")
+const MIN_TS: i64 = -62135596800; // 0001-01-01T00:00:00Z
+const MAX_TS: i64 = 135536014634284799; // 4294967295-12-31T23:59:59Z
+const DAY: i64 = 86400;
+
+// ------------------------------------------------------------------------------------------------
+// reference calendar
+// ------------------------------------------------------------------------------------------------
+
+fn is_leap(y: i64) -> bool {
+    y % 4 == 0 && (y % 100 != 0 || y % 400 == 0)
+}
+
+fn days_in_month(y: i64, m: i64) -> i64 {
+    match m {
+        1 | 3 | 5 | 7 | 8 | 10 | 12 => 31,
+        4 | 6 | 9 | 11 => 30,
+        2 => {
+            if is_leap(y) {
+                29
+            } else {
+                28
+            }
+        }
+        _ => 0,
+    }
+}
+
+/// closed form, days since 1970-01-01 (proleptic Gregorian)
+fn days_from_civil(y: i64, m: i64, d: i64) -> i64 {
+    let y = if m <= 2 { y - 1 } else { y };
+    let era = (if y >= 0 { y } else { y - 399 }) / 400;
+    let yoe = y - era * 400;
+    let mp = if m > 2 { m - 3 } else { m + 9 };
+    let doy = (153 * mp + 2) / 5 + d - 1;
+    let doe = yoe * 365 + yoe / 4 - yoe / 100 + doy;
+    era * 146097 + doe - 719468
+}
+
+fn civil_from_days(z: i64) -> (i64, i64, i64) {
+    let z = z + 719468;
+    let era = (if z >= 0 { z } else { z - 146096 }) / 146097;
+    let doe = z - era * 146097;
+    let yoe = (doe - doe / 1460 + doe / 36524 - doe / 146096) / 365;
+    let y = yoe + era * 400;
+    let doy = doe - (365 * yoe + yoe / 4 - yoe / 100);
+    let mp = (5 * doy + 2) / 153;
+    let d = doy - (153 * mp + 2) / 5 + 1;
+    let m = if mp < 10 { mp + 3 } else { mp - 9 };
+    (if m <= 2 { y + 1 } else { y }, m, d)
+}
+
+#[derive(Clone, Copy, Debug, PartialEq, Eq, PartialOrd, Ord)]
+struct Fields {
+    y: i64,
+    mo: i64,
+    d: i64,
+    h: i64,
+    mi: i64,
+    s: i64,
+}
+
+impl Fields {
+    fn of(dt: &UtcDateTime) -> Fields {
+        Fields { y: dt.year() as i64, mo: dt.month() as i64, d: dt.day_of_month() as i64, h: dt.hour() as i64, mi: dt.minute() as i64, s: dt.second() as i64 }
+    }
+    fn valid(&self) -> bool {
+        self.y >= 1 && self.y <= u32::MAX as i64 && (1..=12).contains(&self.mo) && self.d >= 1 && self.d <= days_in_month(self.y, self.mo) && (0..=23).contains(&self.h) && (0..=59).contains(&self.mi) && (0..=59).contains(&self.s)
+    }
+    fn iso(&self) -> String {
+        format!("{:04}-{:02}-{:02}T{:02}:{:02}:{:02}Z", self.y, self.mo, self.d, self.h, self.mi, self.s)
+    }
+    fn json(&self) -> Value {
+        json!([self.y, self.mo, self.d, self.h, self.mi, self.s])
+    }
+}
+
+/// closed-form reference for an arbitrary timestamp (used for arithmetic targets)
+fn fields_of_ts(t: i64) -> Fields {
+    let day = t.div_euclid(DAY);
+    let sod = t.rem_euclid(DAY);
+    let (y, mo, d) = civil_from_days(day);
+    Fields { y, mo, d, h: sod / 3600, mi: sod / 60 % 60, s: sod % 60 }
+}
+
+fn ts_label(t: i64) -> String {
+    // fixed width so that the collector's (length, text) order is numeric order from the range start
+    format!("{:020}", (t as i128) - (MIN_TS as i128) + (1i128 << 64))
+}
+
+// ------------------------------------------------------------------------------------------------
+// (a) + (d) + (e-roundtrip): per enumerated day
+// ------------------------------------------------------------------------------------------------
+
+const SODS: [i64; 8] = [0, 1, 59, 60, 3599, 3600, 43200, 86399];
+
+fn new_dt(f: &Fields) -> Result<UtcDateTime, String> {
+    UtcDateTime::new(f.y as u32, f.mo as u8, f.d as u8, f.h as u8, f.mi as u8, f.s as u8).map_err(|e| format!("{e:?}"))
+}
+
+fn check_instant(t: i64, exp: &Fields, prev: &mut Option<(i64, UtcDateTime)>, l: &mut Local, col: &Collector) -> Option<UtcDateTime> {
+    l.eval();
+    let case = || json!({"kind": "instant", "t": t});
+    let lab = || ts_label(t);
+    // from_instant
+    let got = mc_core::catch(|| UtcDateTime::from_instant(&Instant::new(t)));
+    let mut out = None;
+    match &got {
+        Ok(Ok(dt)) => {
+            let f = Fields::of(dt);
+            if &f != exp {
+                col.add("from_instant-wrong-fields".into(), &lab(), || format!("from_instant({t}) = {:?} but the Gregorian calendar says {:?}", f.json().to_string(), exp.json().to_string()), case);
+            } else {
+                l.class("instant:converted-as-calendar");
+                out = Some(*dt);
+            }
+            // inverse
+            match mc_core::catch(|| dt.to_instant()) {
+                Ok(i) if i.seconds_since_unix_epoch == t => {}
+                Ok(i) => col.add("to_instant-not-inverse".into(), &lab(), || format!("to_instant(from_instant({t})) = {}", i.seconds_since_unix_epoch), case),
+                Err(p) => col.add("to_instant-panic".into(), &lab(), || format!("to_instant(from_instant({t})) panicked: {p}"), case),
+            }
+            // strictly increasing along the enumeration
+            if let Some((pt, pdt)) = prev {
+                if !(*pt < t && *pdt < *dt) {
+                    let (pt, pdt) = (*pt, *pdt);
+                    col.add("not-strictly-increasing".into(), &lab(), || format!("instants {pt} < {t} map to {pdt} !< {dt}"), case);
+                }
+            }
+            *prev = Some((t, *dt));
+        }
+        Ok(Err(e)) => col.add("from_instant-rejects-supported-instant".into(), &lab(), || format!("from_instant({t}) = Err({e:?}); expected {}", exp.iso()), case),
+        Err(p) => col.add("from_instant-panic".into(), &lab(), || format!("from_instant({t}) panicked: {p}"), case),
+    }
+    // the other direction on its own: new(reference fields) is accepted and denotes t
+    match mc_core::catch(|| new_dt(exp).map(|dt| (dt, dt.to_instant().seconds_since_unix_epoch))) {
+        Ok(Ok((dt, back))) => {
+            if Fields::of(&dt) != *exp {
+                col.add("new-getters-disagree".into(), &lab(), || format!("new{} stores {}", exp.json(), Fields::of(&dt).json()), case);
+            } else if back != t {
+                col.add("to_instant-disagrees-with-calendar".into(), &lab(), || format!("new{}.to_instant() = {back}, calendar says {t}", exp.json()), case);
+            } else {
+                l.class("date-time:to_instant-as-calendar");
+            }
+        }
+        Ok(Err(e)) => col.add("new-rejects-valid-date".into(), &lab(), || format!("new{} = Err({e})", exp.json()), case),
+        Err(p) => col.add("to_instant-panic".into(), &lab(), || format!("new{}.to_instant() panicked: {p}", exp.json()), case),
+    }
+    out
+}
+
+const UNITS: [(&str, i64); 4] = [("days", 86400), ("hours", 3600), ("minutes", 60), ("seconds", 1)];
+
+fn deltas_for(t: i64, unit: i64) -> Vec<i64> {
+    let mut v = vec![0, 1, -1, 59, -59, 365, -365, 146097, 86400 * 365, -86400 * 365, i64::MAX, i64::MIN, i64::MAX / unit, i64::MIN / unit];
+    // first multiples that overflow i64 (only exist for units > 1)
+    if let Some(x) = (i64::MAX / unit).checked_add(1) {
+        v.push(x);
+    }
+    if let Some(x) = (i64::MIN / unit).checked_sub(1) {
+        v.push(x);
+    }
+    // exact distances to the two ends of the supported range (and one step past them), in this unit
+    let up = (MAX_TS as i128 - t as i128) / unit as i128;
+    let down = (MIN_TS as i128 - t as i128) / unit as i128; // truncates toward zero => stays inside
+    for x in [up, up + 1, down, down - 1] {
+        if let Ok(x) = i64::try_from(x) {
+            v.push(x);
+        }
+    }
+    v
+}
+
+fn check_arith(t: i64, dt: &UtcDateTime, l: &mut Local, col: &Collector) {
+    for (name, unit) in UNITS {
+        for delta in deltas_for(t, unit) {
+            l.eval();
+            let exact: i128 = t as i128 + delta as i128 * unit as i128;
+            let mul_fits = (delta as i128 * unit as i128) >= i64::MIN as i128 && (delta as i128 * unit as i128) <= i64::MAX as i128;
+            let sum_fits = exact >= i64::MIN as i128 && exact <= i64::MAX as i128;
+            let exp_instant: Option<i64> = if mul_fits && sum_fits { Some(exact as i64) } else { None };
+            let exp_dt: Option<Fields> = exp_instant.filter(|x| *x >= MIN_TS && *x <= MAX_TS).map(fields_of_ts);
+            let case = || json!({"kind": "arith", "t": t, "unit": name, "delta": delta});
+            let lab = || format!("{}{:>8}{:021}", ts_label(t), name, delta as i128 + (1i128 << 64));
+            let inst = Instant::new(t);
+            let got_i = mc_core::catch(|| match name {
+                "days" => inst.add_days(delta),
+                "hours" => inst.add_hours(delta),
+                "minutes" => inst.add_minutes(delta),
+                _ => inst.add_seconds(delta),
+            });
+            match &got_i {
+                Ok(g) if g.map(|i| i.seconds_since_unix_epoch) == exp_instant => {}
+                other => {
+                    col.add(format!("instant-add_{name}-wrong"), &lab(), || format!("Instant({t}).add_{name}({delta}) = {other:?}, exact arithmetic gives {exp_instant:?}"), case);
+                }
+            }
+            let got = mc_core::catch(|| match name {
+                "days" => dt.add_days(delta),
+                "hours" => dt.add_hours(delta),
+                "minutes" => dt.add_minutes(delta),
+                _ => dt.add_seconds(delta),
+            });
+            match &got {
+                Ok(g) if g.as_ref().map(Fields::of) == exp_dt => {
+                    l.class(match (&exp_dt, exp_instant) {
+                        (Some(_), _) => "arith:moved-as-timestamp",
+                        (None, Some(_)) => "arith:none-outside-supported-range",
+                        (None, None) => "arith:none-i64-overflow",
+                    });
+                }
+                Ok(g) => {
+                    let g = g.as_ref().map(|d| d.to_string());
+                    col.add(format!("add_{name}-disagrees-with-timestamp-arithmetic"), &lab(), || format!("{dt}.add_{name}({delta}) = {g:?}, timestamp arithmetic gives {:?}", exp_dt.map(|f| f.iso())), case);
+                }
+                Err(p) => col.add(format!("add_{name}-panic"), &lab(), || format!("{dt}.add_{name}({delta}) panicked: {p}"), case),
+            }
+        }
+    }
+}
+
+fn check_text_roundtrip(dt: &UtcDateTime, exp: &Fields, l: &mut Local, col: &Collector) {
+    l.eval();
+    let iso = exp.iso();
+    let case = || json!({"kind": "print", "fields": exp.json()});
+    let text = match mc_core::catch(|| dt.to_string()) {
+        Ok(t) => t,
+        Err(p) => {
+            col.add("to_string-panic".into(), &iso, || format!("printing {} panicked: {p}", exp.json()), case);
+            return;
+        }
+    };
+    if text != iso {
+        col.add("print-not-documented-iso8601".into(), &iso, || format!("{} prints as {text:?}, documented form is {iso:?}", exp.json()), case);
+    }
+    match mc_core::catch(|| UtcDateTime::from_str(&text)) {
+        Ok(Ok(back)) if back == *dt => l.class("text:print-parse-identical"),
+        Ok(Ok(back)) => col.add("text-roundtrip".into(), &iso, || format!("{text:?} parses back as {back}"), case),
+        Ok(Err(e)) => col.add("text-roundtrip".into(), &iso, || format!("{text:?} (printed) is rejected: {e:?}"), case),
+        Err(p) => col.add("text-roundtrip".into(), &iso, || format!("parsing printed {text:?} panicked: {p}"), case),
+    }
+}
+
+struct YearRange {
+    from: i64,
+    to: i64, // inclusive
+}
+
+/// chunks of <= 100 years so that the work spreads over the workers
+fn chunks(ranges: &[YearRange]) -> Vec<(i64, i64)> {
+    let mut v = vec![];
+    for r in ranges {
+        let mut y = r.from;
+        while y <= r.to {
+            let e = (y + 99).min(r.to);
+            v.push((y, e));
+            y = e + 1;
+        }
+    }
+    v
+}
+
+fn sweep_days(ctx: &Ctx, col: &Collector, ranges: &[YearRange], all_seconds_days: &[(i64, i64, i64)]) -> (u64, u64) {
+    let ch = chunks(ranges);
+    let days = std::sync::atomic::AtomicU64::new(0);
+    let texts = std::sync::atomic::AtomicU64::new(0);
+    par_for(ctx, &ch, |(y0, y1), l| {
+        let mut day = days_from_civil(*y0, 1, 1);
+        // monotonicity across the chunk edge: start from the last second before the chunk
+        let mut prev: Option<(i64, UtcDateTime)> = None;
+        let before = day * DAY - 1;
+        if before >= MIN_TS {
+            if let Ok(Ok(p)) = mc_core::catch(|| UtcDateTime::from_instant(&Instant::new(before))) {
+                prev = Some((before, p));
+            }
+        }
+        let mut nd = 0u64;
+        let mut nt = 0u64;
+        for y in *y0..=*y1 {
+            for mo in 1..=12 {
+                for d in 1..=days_in_month(y, mo) {
+                    // the two references must agree on every enumerated day
+                    if days_from_civil(y, mo, d) != day || civil_from_days(day) != (y, mo, d) {
+                        mc_core::machinery_error(&format!("reference calendars disagree at {y}-{mo}-{d} / day {day}"));
+                    }
+                    nd += 1;
+                    // one rotating second-of-day per day carries the arithmetic and text checks
+                    let rot = (day.rem_euclid(86400) * 7919 + 13).rem_euclid(86400);
+                    let mut sods: Vec<i64> = SODS.to_vec();
+                    if !sods.contains(&rot) {
+                        sods.push(rot);
+                        sods.sort();
+                    }
+                    for sod in sods {
+                        let t = day * DAY + sod;
+                        let exp = Fields { y, mo, d, h: sod / 3600, mi: sod / 60 % 60, s: sod % 60 };
+                        let dt = check_instant(t, &exp, &mut prev, l, col);
+                        if sod == rot {
+                            if let Some(dt) = dt {
+                                check_arith(t, &dt, l, col);
+                                if y <= 9999 {
+                                    check_text_roundtrip(&dt, &exp, l, col);
+                                    nt += 1;
+                                } else if day % 50_000 == 0 {
+                                    // five-digit years are outside the documented text form
+                                    let s = dt.to_string();
+                                    let back = mc_core::catch(|| UtcDateTime::from_str(&s).ok());
+                                    l.info(if matches!(back, Ok(Some(b)) if b == dt) { "year>9999:text-roundtrips" } else { "year>9999:printed-text-not-parsed-back" });
+                                }
+                            }
+                            if day % 100_003 == 0 {
+                                l.sample(|| json!({"t": t, "calendar": exp.iso(), "from_instant": format!("{:?}", UtcDateTime::from_instant(&Instant::new(t)).map(|d| d.to_string()))}));
+                            }
+                        }
+                    }
+                    day += 1;
+                }
+            }
+        }
+        days.fetch_add(nd, std::sync::atomic::Ordering::Relaxed);
+        texts.fetch_add(nt, std::sync::atomic::Ordering::Relaxed);
+    });
+    // every second of a few days: all (h, m, s) values through conversion and text
+    par_for(ctx, all_seconds_days, |(y, mo, d), l| {
+        let day = days_from_civil(*y, *mo, *d);
+        let mut prev = None;
+        for sod in 0..86400 {
+            let t = day * DAY + sod;
+            let exp = Fields { y: *y, mo: *mo, d: *d, h: sod / 3600, mi: sod / 60 % 60, s: sod % 60 };
+            if let Some(dt) = check_instant(t, &exp, &mut prev, l, col) {
+                if *y <= 9999 {
+                    check_text_roundtrip(&dt, &exp, l, col);
+                }
+            }
+        }
+    });
+    (days.into_inner(), texts.into_inner())
+}
+
+// ------------------------------------------------------------------------------------------------
+// (b) new() grid, (c) range ends
+// ------------------------------------------------------------------------------------------------
+
+fn check_new_grid(ctx: &Ctx, col: &Collector, dense_years_to: i64) -> u64 {
+    let years: Vec<u32> = vec![0, 1, 4, 100, 400, 1582, 1600, 1700, 1900, 1969, 1970, 1972, 2000, 2023, 2024, 2100, 2400, 9999, 10000, 4294967100, 4294967200, 4294967292, 4294967295];
+    let hms: [(u8, u8, u8); 8] = [(0, 0, 0), (23, 59, 59), (24, 0, 0), (0, 60, 0), (0, 0, 60), (255, 0, 0), (0, 255, 0), (0, 0, 255)];
+    let mut months: Vec<u8> = (0..=13).collect();
+    months.push(255);
+    let mut dom: Vec<u8> = (0..=32).collect();
+    dom.push(255);
+    let n = std::sync::atomic::AtomicU64::new(0);
+    let one = |y: u32, mo: u8, d: u8, h: u8, mi: u8, s: u8, l: &mut Local| {
+        l.eval();
+        let f = Fields { y: y as i64, mo: mo as i64, d: d as i64, h: h as i64, mi: mi as i64, s: s as i64 };
+        let lab = format!("{:010}{:03}{:03}{:03}{:03}{:03}", y, mo, d, h, mi, s);
+        let case = || json!({"kind": "new", "fields": f.json()});
+        match mc_core::catch(|| UtcDateTime::new(y, mo, d, h, mi, s)) {
+            Ok(Ok(dt)) => {
+                if !f.valid() {
+                    col.add("new-accepts-invalid-date".into(), &lab, || format!("new{} = Ok({dt}) but it is not a civil date-time", f.json()), case);
+                } else if Fields::of(&dt) != f {
+                    col.add("new-getters-disagree".into(), &lab, || format!("new{} stores {}", f.json(), Fields::of(&dt).json()), case);
+                } else {
+                    l.class("new:accepted-valid");
+                    n.fetch_add(1, std::sync::atomic::Ordering::Relaxed);
+                }
+            }
+            Ok(Err(e)) => {
+                if f.valid() {
+                    col.add("new-rejects-valid-date".into(), &lab, || format!("new{} = Err({e:?})", f.json()), case);
+                } else {
+                    l.class("new:rejected-invalid");
+                }
+            }
+            Err(p) => col.add("new-panic".into(), &lab, || format!("new{} panicked: {p}", f.json()), case),
+        }
+    };
+    par_for(ctx, &years, |y, l| {
+        for mo in &months {
+            for d in &dom {
+                for (h, mi, s) in hms {
+                    one(*y, *mo, *d, h, mi, s, l);
+                }
+            }
+        }
+    });
+    // every year of the dense range: all months x the day numbers around every month end
+    let ys: Vec<u32> = (1..=dense_years_to as u32).collect();
+    par_for(ctx, &ys, |y, l| {
+        for mo in 1..=12u8 {
+            for d in [0u8, 1, 28, 29, 30, 31, 32] {
+                one(*y, mo, d, 12, 0, 0, l);
+            }
+        }
+    });
+    n.into_inner()
+}
+
+fn check_range_ends(ctx: &Ctx, col: &Collector) {
+    let mut l = Local::new();
+    for t in [MIN_TS - 1, MAX_TS + 1, MIN_TS - DAY, MAX_TS + DAY, i64::MIN, i64::MIN + 1, i64::MAX, i64::MAX - 1, MIN_TS - 86400 * 366, -(1i64 << 62), 1i64 << 62] {
+        l.eval();
+        let case = || json!({"kind": "out-of-range-instant", "t": t});
+        match mc_core::catch(|| UtcDateTime::from_instant(&Instant::new(t))) {
+            Ok(Err(_)) => l.class("instant:out-of-range-rejected"),
+            Ok(Ok(dt)) => col.add("from_instant-accepts-out-of-range".into(), &ts_label(t), || format!("from_instant({t}) = Ok({dt})"), case),
+            Err(p) => col.add("from_instant-panic".into(), &ts_label(t), || format!("from_instant({t}) panicked: {p}"), case),
+        }
+    }
+    // the ends themselves (anchors of the whole reference: written in the type's documentation)
+    let mut prev = None;
+    check_instant(MIN_TS, &Fields { y: 1, mo: 1, d: 1, h: 0, mi: 0, s: 0 }, &mut prev, &mut l, col);
+    let mut prev = None;
+    check_instant(MAX_TS, &Fields { y: u32::MAX as i64, mo: 12, d: 31, h: 23, mi: 59, s: 59 }, &mut prev, &mut l, col);
+    let mut prev = None;
+    check_instant(0, &Fields { y: 1970, mo: 1, d: 1, h: 0, mi: 0, s: 0 }, &mut prev, &mut l, col);
+    ctx.merge(l);
+}
+
+// ------------------------------------------------------------------------------------------------
+// (e) parsing arbitrary text
+// ------------------------------------------------------------------------------------------------
+
+/// `DDDD-DD-DDTDD:DD:DDZ`, ASCII digits only: the documented form. Returns the written fields.
+fn strict_form(s: &str) -> Option<Fields> {
+    let b = s.as_bytes();
+    if b.len() != 20 {
+        return None;
+    }
+    let num = |r: std::ops::Range<usize>| -> Option<i64> {
+        let mut v = 0i64;
+        for c in &b[r] {
+            if !c.is_ascii_digit() {
+                return None;
+            }
+            v = v * 10 + (*c - b'0') as i64;
+        }
+        Some(v)
+    };
+    if b[4] != b'-' || b[7] != b'-' || b[10] != b'T' || b[13] != b':' || b[16] != b':' || b[19] != b'Z' {
+        return None;
+    }
+    Some(Fields { y: num(0..4)?, mo: num(5..7)?, d: num(8..10)?, h: num(11..13)?, mi: num(14..16)?, s: num(17..19)? })
+}
+
+fn check_parse(s: &str, family: &str, l: &mut Local, col: &Collector) {
+    l.eval();
+    let case = || json!({"kind": "parse", "input": s, "family": family});
+    let got = mc_core::catch(|| UtcDateTime::from_str(s));
+    let strict = strict_form(s);
+    match got {
+        Err(p) => {
+            let key = if s.is_ascii() { "from_str-panic" } else { "from_str-panic-non-ascii" };
+            // prefer a reproducer without control characters
+            let lab = format!("{}{s}", s.chars().filter(|c| c.is_control()).count());
+            col.add(key.into(), &lab, || format!("UtcDateTime::from_str({s:?}) panicked: {p}"), case);
+        }
+        Ok(Ok(dt)) => {
+            let f = Fields::of(&dt);
+            if !f.valid() {
+                col.add("from_str-yields-invalid-date-time".into(), s, || format!("from_str({s:?}) = {}", f.json()), case);
+                return;
+            }
+            match strict {
+                Some(w) if w == f => l.class("parse:accepted-documented-form"),
+                Some(w) => col.add("from_str-wrong-fields".into(), s, || format!("from_str({s:?}) = {} but the text says {}", f.json(), w.json()), case),
+                None => {
+                    // outside the documented form; the statement does not say such text must be refused
+                    l.class("parse:accepted-outside-documented-form");
+                    l.info(if s.contains('+') { "from_str:accepted-sign-in-a-field" } else { "from_str:accepted-other-undocumented-form" });
+                }
+            }
+        }
+        Ok(Err(_)) => match strict {
+            Some(w) if w.valid() => col.add("from_str-rejects-documented-form".into(), s, || format!("from_str({s:?}) is an error but it is the documented text of {}", w.json()), case),
+            Some(_) => l.class("parse:rejected-not-a-civil-date-time"),
+            None => l.class("parse:rejected-not-documented-form"),
+        },
+    }
+}
+
+fn parse_inputs(thorough: bool) -> Vec<(String, &'static str)> {
+    let mut out: Vec<(String, &'static str)> = vec![];
+    let bases = ["2023-01-27T12:17:25Z", "0001-01-01T00:00:00Z", "9999-12-31T23:59:59Z", "2024-02-29T00:00:59Z"];
+    let subs: Vec<char> = vec!['0', '1', '3', '9', '-', ':', 'T', 'Z', '+', ' ', 'é', '😀', '\0', '１', 't', 'z', '.', '/'];
+    for b in bases {
+        let chars: Vec<char> = b.chars().collect();
+        // single substitution / deletion / duplication / insertion / truncation / append
+        for i in 0..chars.len() {
+            for c in &subs {
+                let mut v = chars.clone();
+                v[i] = *c;
+                out.push((v.iter().collect(), "single-substitution"));
+                let mut v = chars.clone();
+                v.insert(i, *c);
+                out.push((v.iter().collect(), "single-insertion"));
+            }
+            let mut v = chars.clone();
+            v.remove(i);
+            out.push((v.iter().collect(), "deletion"));
+            let mut v = chars.clone();
+            v.insert(i, chars[i]);
+            out.push((v.iter().collect(), "duplication"));
+            out.push((chars[..i].iter().collect(), "truncation"));
+        }
+        for c in &subs {
+            out.push((format!("{b}{c}"), "append"));
+        }
+        // double substitution over a smaller alphabet (all position pairs)
+        let small: Vec<char> = if thorough { subs.clone() } else { vec!['0', '9', '+', '-', ' ', 'é', '😀', '\0'] };
+        for i in 0..chars.len() {
+            for j in (i + 1)..chars.len() {
+                for a in &small {
+                    for c in &small {
+                        let mut v = chars.clone();
+                        v[i] = *a;
+                        v[j] = *c;
+                        out.push((v.iter().collect(), "double-substitution"));
+                    }
+                }
+            }
+        }
+    }
+    // per-field contents: every string of the field's width over a small alphabet, other fields valid
+    let fa: Vec<char> = vec!['0', '1', '2', '3', '5', '6', '9', '+', '-', ' ', 'é', 'a'];
+    let mut two: Vec<String> = vec![];
+    for a in &fa {
+        for b in &fa {
+            two.push([*a, *b].iter().collect());
+        }
+    }
+    let mut four: Vec<String> = vec![];
+    for a in &two {
+        for b in &two {
+            four.push(format!("{a}{b}"));
+        }
+    }
+    for y in &four {
+        out.push((format!("{y}-02-28T12:00:00Z"), "year-field"));
+        out.push((format!("{y}-02-29T12:00:00Z"), "year-field"));
+    }
+    for f in &two {
+        out.push((format!("2023-01-27T{f}:17:25Z"), "hour-field"));
+        out.push((format!("2023-01-27T12:{f}:25Z"), "minute-field"));
+        out.push((format!("2023-01-27T12:17:{f}Z"), "second-field"));
+    }
+    for y in ["2023", "2024", "1900", "2000", "0000", "0001"] {
+        for m in &two {
+            for d in &two {
+                out.push((format!("{y}-{m}-{d}T00:00:00Z"), "month-and-day-fields"));
+            }
+        }
+    }
+    // some fixed odd ones
+    for s in ["", "Z", "2023-01-27T12:17:25", "2023-01-27 12:17:25Z", "2023-01-27T12:17:25+00:00", "12345-01-27T12:17:25Z", "+123-01-27T12:17:25Z", "2023-+1-27T12:17:25Z", "012é-01-27T12:17:25Z", "2023-01-27T12:17:2éZ", "２０２３-01-27T12:17:25Z", "😀😀😀😀😀😀😀😀😀😀😀😀😀😀😀😀😀😀😀😀"] {
+        out.push((s.to_string(), "fixed"));
+    }
+    out.sort();
+    out.dedup_by(|a, b| a.0 == b.0);
+    out
+}
+
+// ------------------------------------------------------------------------------------------------
+
+fn replay(ctx: Ctx) -> ! {
+    let case = ctx.read_replay_case().unwrap_or_else(|| mc_core::machinery_error("no replay case"));
+    let col = Collector::default();
+    let mut l = Local::new();
+    let kind = case.get("kind").and_then(|k| k.as_str()).unwrap_or("");
+    let fields = |v: &Value| -> Fields {
+        let a: Vec<i64> = v.as_array().map(|a| a.iter().map(|x| x.as_i64().unwrap_or(0)).collect()).unwrap_or_default();
+        if a.len() != 6 {
+            mc_core::machinery_error("replay: fields must have 6 numbers");
+        }
+        Fields { y: a[0], mo: a[1], d: a[2], h: a[3], mi: a[4], s: a[5] }
+    };
+    match kind {
+        "parse" => {
+            let s = case.get("input").and_then(|s| s.as_str()).unwrap_or_else(|| mc_core::machinery_error("replay: no input"));
+            println!("input    : {s:?}");
+            println!("from_str : {:?}", mc_core::catch(|| UtcDateTime::from_str(s).map(|d| d.to_string())));
+            check_parse(s, "replay", &mut l, &col);
+        }
+        "instant" | "out-of-range-instant" | "arith" => {
+            let t = case.get("t").and_then(|t| t.as_i64()).unwrap_or_else(|| mc_core::machinery_error("replay: no t"));
+            println!("t            : {t}");
+            println!("from_instant : {:?}", mc_core::catch(|| UtcDateTime::from_instant(&Instant::new(t)).map(|d| d.to_string())));
+            if (MIN_TS..=MAX_TS).contains(&t) {
+                let exp = fields_of_ts(t);
+                println!("calendar     : {}", exp.iso());
+                let mut prev = None;
+                if let Some(dt) = check_instant(t, &exp, &mut prev, &mut l, &col) {
+                    if kind == "arith" {
+                        check_arith(t, &dt, &mut l, &col);
+                    }
+                }
+            } else {
+                check_range_ends(&ctx, &col);
+            }
+        }
+        "new" | "print" => {
+            let f = fields(case.get("fields").unwrap_or(&Value::Null));
+            println!("fields : {}", f.json());
+            println!("new    : {:?}", mc_core::catch(|| new_dt(&f).map(|d| d.to_string())));
+            if f.valid() {
+                if let Ok(dt) = new_dt(&f) {
+                    check_text_roundtrip(&dt, &f, &mut l, &col);
+                    let mut prev = None;
+                    let t = days_from_civil(f.y, f.mo, f.d) * DAY + f.h * 3600 + f.mi * 60 + f.s;
+                    check_instant(t, &f, &mut prev, &mut l, &col);
+                } else {
+                    col.add("new-rejects-valid-date".into(), "", || format!("new{} is an error", f.json()), || case.clone());
+                }
+            } else if new_dt(&f).is_ok() {
+                col.add("new-accepts-invalid-date".into(), "", || format!("new{} is accepted", f.json()), || case.clone());
+            }
+        }
+        _ => mc_core::machinery_error("replay: unknown case kind"),
+    }
+    ctx.merge(l);
+    col.flush(&ctx);
+    ctx.finish(Level::Exploration, "replay of one case", 1, true, Map::new(), &[])
+}
+
+pub fn run(ctx: Ctx) -> ! {
+    if ctx.replay.is_some() {
+        replay(ctx);
+    }
+    // anchors of the reference (hand-checked constants; machinery error, never a verdict)
+    if days_from_civil(1970, 1, 1) != 0
+        || days_from_civil(1, 1, 1) * DAY != MIN_TS
+        || days_from_civil(u32::MAX as i64, 12, 31) * DAY + 86399 != MAX_TS
+        || days_from_civil(2000, 3, 1) != 11017
+        || civil_from_days(19384) != (2023, 1, 27)
+        || fields_of_ts(1674821845).iso() != "2023-01-27T12:17:25Z"
+        || fields_of_ts(-1).iso() != "1969-12-31T23:59:59Z"
+    {
+        mc_core::machinery_error("reference calendar anchors failed");
+    }
+    let col = Collector::default();
+    let dense_to: i64 = ctx.pick(4400, 200_000);
+    let ranges = vec![
+        YearRange { from: 1, to: dense_to },
+        YearRange { from: 999_800, to: 1_000_199 },
+        YearRange { from: (1i64 << 31) - 200, to: (1i64 << 31) + 199 },
+        YearRange { from: u32::MAX as i64 - 399, to: u32::MAX as i64 },
+    ];
+    let mut all_seconds: Vec<(i64, i64, i64)> = vec![(1, 1, 1), (1969, 12, 31), (1970, 1, 1), (2000, 2, 29), (9999, 12, 31), (u32::MAX as i64, 12, 31)];
+    if !ctx.quick() {
+        all_seconds.extend([(1, 12, 31), (4, 2, 29), (100, 2, 28), (400, 2, 29), (1600, 3, 1), (1900, 2, 28), (1968, 2, 29), (2023, 1, 27), (2024, 2, 29), (2100, 3, 1), (10000, 1, 1), (1 << 31, 6, 15)]);
+    }
+    let (days, _texts) = sweep_days(&ctx, &col, &ranges, &all_seconds);
+    let new_accepted = check_new_grid(&ctx, &col, dense_to.min(40_000));
+    check_range_ends(&ctx, &col);
+    let inputs = parse_inputs(!ctx.quick());
+    par_for(&ctx, &inputs, |(s, fam), l| {
+        check_parse(s, fam, l, &col);
+    });
+    let mut l = Local::new();
+    for (i, (s, _)) in inputs.iter().enumerate() {
+        if i % (inputs.len() / 5 + 1) == 3 {
+            l.sample(|| json!({"input": s, "from_str": format!("{:?}", mc_core::catch(|| UtcDateTime::from_str(s).map(|d| d.to_string())))}));
+        }
+    }
+    ctx.merge(l);
+    col.flush(&ctx);
+
+    let classes = ctx.classes();
+    let c = |k: &str| classes.get(k).copied().unwrap_or(0);
+    // measured: distinct in-range instants converted as the calendar says + distinct valid field tuples accepted
+    // by new() on the grid + distinct texts accepted in the documented form
+    let nontrivial = c("instant:converted-as-calendar") + new_accepted + c("parse:accepted-documented-form") + c("text:print-parse-identical");
+    let mut cov = Map::new();
+    cov.insert("days_enumerated".into(), json!(days));
+    cov.insert("year_ranges".into(), json!(ranges.iter().map(|r| json!([r.from, r.to])).collect::<Vec<_>>()));
+    cov.insert("seconds_of_day_per_day".into(), json!("0,1,59,60,3599,3600,43200,86399 + one rotating second"));
+    cov.insert("days_with_all_86400_seconds".into(), json!(all_seconds.len()));
+    cov.insert("date_times_printed_and_parsed_year_le_9999".into(), json!(c("text:print-parse-identical")));
+    cov.insert("parse_inputs".into(), json!(inputs.len()));
+    cov.insert("arithmetic_cases".into(), json!(c("arith:moved-as-timestamp") + c("arith:none-outside-supported-range") + c("arith:none-i64-overflow")));
+    let rule = format!(
+        "every day of years 1..={dense_to} and of three far 400-year cycles (year 10^6, 2^31, last cycle ending 4294967295) x 9 seconds-of-day; {} days at all 86400 seconds; new() on 23 years x months 0..=13,255 x days 0..=32,255 x 8 (h,m,s) and every year 1..={} x 12 months x 7 day numbers; arithmetic: one date-time per enumerated day x 4 units x ~20 deltas; text: every enumerated date-time with year<=9999 printed+parsed, {} mutated/field-enumerated input strings. A case is one instant, one field tuple, one (date-time, unit, delta) or one string; non-trivial = in-range instants converted + valid tuples accepted + texts accepted",
+        all_seconds.len(),
+        dense_to.min(40_000),
+        inputs.len()
+    );
+    ctx.finish(
+        Level::Exploration,
+        &rule,
+        nontrivial,
+        true,
+        cov,
+        &[
+            "proleptic Gregorian calendar without leap seconds, as documented on UtcDateTime",
+            "years between the dense range and the far cycles are not enumerated (the conversion is 400-year periodic; three far cycles probe the wide-year arithmetic)",
+            "text accepted outside the documented form (a '+' inside a field) is informational: the statement only demands print/parse inversion and absence of panics",
+            "which error variant is returned is not part of the property",
+        ],
+    )
 }
